@@ -370,6 +370,46 @@ func c19R4(c *Ctx, matcher *ssa.Function, patterns *ssa.Parameter, loop rangeLoo
 		c.undecided("R4", "pattern-element", p.Pos(matcher.Pos()), "the ranged pattern element was not found")
 		return
 	}
+	// the bindings handed out with a `true` verdict are built for the alternative that matched: every
+	// map that can be returned is made inside the loop over the alternatives
+	{
+		n := 0
+		for _, r := range returnsOf(matcher) {
+			res := effectiveResults(r)
+			if v, isC := constBool(res[0]); !isC || !v {
+				continue
+			}
+			var maps []*ssa.MakeMap
+			var collect func(v ssa.Value, d int) bool
+			collect = func(v ssa.Value, d int) bool {
+				switch x := v.(type) {
+				case *ssa.MakeMap:
+					maps = append(maps, x)
+					return true
+				case *ssa.Const:
+					return x.IsNil()
+				case *ssa.Phi:
+					if d > 4 {
+						return false
+					}
+					for _, e := range x.Edges {
+						if !collect(e, d+1) {
+							return false
+						}
+					}
+					return true
+				}
+				return false
+			}
+			if !collect(res[1], 0) {
+				continue // judged by the per-arm rules below
+			}
+			for _, mm := range maps {
+				n++
+				c.check(loop.Body.Dominates(mm.Block()), "R4", fmt.Sprintf("bindings-per-alternative #%d", n), p.InstrPos(mm), "the binding map is made for the alternative being tried", "the binding map returned with a match is made outside the loop over the alternatives: names bound by an alternative that then failed stay in it and shadow outer variables in the body")
+			}
+		}
+	}
 	cases := typeCasesOn(matcher, elem)
 	have := map[string]typeCase{}
 	for _, tc := range cases {
